@@ -717,6 +717,11 @@ func (st *state) applyDefaults(instancep reflect.Value, schema *Schema) (err err
 		// If we unmarshalled into 'any', the default object unmarshalling will be map[string]any.
 		instance = instance.Elem()
 	}
+	if instance.Kind() == reflect.Map && instance.IsNil() {
+		// A nil map is how a map type holds a JSON null: a value that is present.
+		// There is nothing to fill in, and assigning to it would panic.
+		return nil
+	}
 	if instance.Kind() == reflect.Map || instance.Kind() == reflect.Struct {
 		if instance.Kind() == reflect.Map {
 			if kt := instance.Type().Key(); kt.Kind() != reflect.String {
